@@ -18,6 +18,20 @@ impl<A: Array> SmallVec<A> {
     pub fn push(&mut self, x: A::Item) { self.v.push(x) }
     pub fn len(&self) -> usize { self.v.len() }
     pub fn is_empty(&self) -> bool { self.v.is_empty() }
+    // the rest of the Vec-like surface of SmallVec (not used by bevy_cobweb today; present so that a refactoring of the
+    // crate that switches to one of them still compiles against the assumed environment)
+    pub fn retain<F: FnMut(&mut A::Item) -> bool>(&mut self, mut f: F) { let _ = self.drain_filter(|x| !f(x)); }
+    pub fn retain_mut<F: FnMut(&mut A::Item) -> bool>(&mut self, f: F) { self.retain(f) }
+    pub fn remove(&mut self, i: usize) -> A::Item { self.v.remove(i) }
+    pub fn swap_remove(&mut self, i: usize) -> A::Item { self.v.swap_remove(i) }
+    pub fn insert(&mut self, i: usize, x: A::Item) { self.v.insert(i, x) }
+    pub fn pop(&mut self) -> Option<A::Item> { self.v.pop() }
+    pub fn clear(&mut self) { self.v.clear() }
+    pub fn truncate(&mut self, n: usize) { self.v.truncate(n) }
+    pub fn iter_mut(&mut self) -> core::slice::IterMut<'_, A::Item> { self.v.iter_mut() }
+    pub fn drain<R: core::ops::RangeBounds<usize>>(&mut self, r: R) -> std::vec::Drain<'_, A::Item> { self.v.drain(r) }
+    pub fn extend<I: IntoIterator<Item = A::Item>>(&mut self, it: I) { self.v.extend(it) }
+    pub fn into_vec(self) -> Vec<A::Item> { self.v }
     pub fn drain_filter<F: FnMut(&mut A::Item) -> bool>(&mut self, mut f: F) -> DrainFilter<A::Item> {
         // in-place, order-preserving compaction without allocation (CBMC cost): kept elements move left, the removed
         // ones collect at the tail and are dropped by `truncate`.
@@ -37,3 +51,5 @@ impl<A: Array> DerefMut for SmallVec<A> { fn deref_mut(&mut self) -> &mut [A::It
 /// The removed elements have already been dropped (bevy_cobweb never looks at them); iterating yields nothing.
 pub struct DrainFilter<T> { _p: core::marker::PhantomData<T> }
 impl<T> Iterator for DrainFilter<T> { type Item = T; fn next(&mut self) -> Option<T> { None } }
+impl<A: Array> IntoIterator for SmallVec<A> { type Item = A::Item; type IntoIter = std::vec::IntoIter<A::Item>; fn into_iter(self) -> Self::IntoIter { self.v.into_iter() } }
+impl<'a, A: Array> IntoIterator for &'a SmallVec<A> { type Item = &'a A::Item; type IntoIter = core::slice::Iter<'a, A::Item>; fn into_iter(self) -> Self::IntoIter { self.v.iter() } }
